@@ -117,26 +117,61 @@ reports `u` as its parent with that field and index -/
 def KidOk (s : LState) (u : Nat) (e : Nat × Str × Option Nat) : Prop :=
   Att s e.1 ∧ (s.obj e.1).pid = some (s.idOf u) ∧ (s.obj e.1).pfield = some e.2.1 ∧ (s.obj e.1).pindex = e.2.2
 
-structure Inv (Hc : Str → Str) (s : LState) : Prop where
+/-- child fields are well formed: distinct names, a single (required / optional) field holds at
+most one node -/
+def LField.wf (f : LField) : Prop := f.kind.isSeq = true ∨ f.kids.length ≤ 1
+def LObj.wf (o : LObj) : Prop := (o.fields.map (·.name)).Nodup ∧ ∀ f ∈ o.fields, f.wf
+
+instance (f : LField) : Decidable f.wf := by unfold LField.wf; infer_instance
+instance (o : LObj) : Decidable o.wf := by unfold LObj.wf; infer_instance
+
+/-- The invariant, with two sets of exceptions used inside `replace` / `replace_with`, where for a
+moment a parent holds a detached child ("hole") and content ids above the hole are stale:
+`X p e` exempts position `e` of `p` from `down`, `Y u` exempts `u` from `cid`. -/
+structure InvX (Hc : Str → Str) (X : Nat → (Nat × Str × Option Nat) → Prop) (Y : Nat → Prop) (s : LState) :
+    Prop where
   /-- the registry maps an id only to an existing object carrying that id -/
   regSound : ∀ k u, s.lookup k = some u → u < s.size ∧ s.idOf u = k
   /-- every attached node's children are attached and report it as parent with the right field and index -/
-  down : ∀ u, Att s u → ∀ e ∈ (s.obj u).kidsPos, KidOk s u e
+  down : ∀ u, Att s u → ∀ e ∈ (s.obj u).kidsPos, ¬ X u e → KidOk s u e
   /-- an attached node with a parent is stored in that parent at exactly that position -/
   up : ∀ u, Att s u → ∀ p, s.parent u = some p →
     ∃ f, (s.obj u).pfield = some f ∧ (u, f, (s.obj u).pindex) ∈ (s.obj p).kidsPos
   /-- the cached content id of an attached node is the digest of its own content and the cached
   content ids of its children (see `cid_eq_spec`: hence of the whole subtree) -/
-  cid : ∀ u, Att s u → (s.obj u).cid = Hc (cidPre s (s.obj u))
+  cid : ∀ u, Att s u → ¬ Y u → (s.obj u).cid = Hc (cidPre s (s.obj u))
   /-- a stored parent id always resolves, and only attached nodes store one -/
   noDangling : ∀ u k, (s.obj u).pid = some k → Att s u ∧ (s.lookup k).isSome
   /-- the children of an existing object exist -/
   closed : ∀ u, u < s.size → ∀ c ∈ (s.obj u).kidList, c < s.size
+  /-- no node is its own parent -/
+  noSelf : ∀ u, s.parent u ≠ some u
+  /-- child fields are well formed -/
+  wf : ∀ u, (s.obj u).wf
+
+abbrev NoX : Nat → (Nat × Str × Option Nat) → Prop := fun _ _ => False
+abbrev NoY : Nat → Prop := fun _ => False
+
+/-- **the invariant of C18** -/
+abbrev Inv (Hc : Str → Str) (s : LState) : Prop := InvX Hc NoX NoY s
+
+theorem Inv.down' {Hc : Str → Str} {s : LState} (h : Inv Hc s) (u : Nat) (hu : Att s u)
+    (e : Nat × Str × Option Nat) (he : e ∈ (s.obj u).kidsPos) : KidOk s u e := h.down u hu e he (fun x => x)
+
+theorem Inv.cid' {Hc : Str → Str} {s : LState} (h : Inv Hc s) (u : Nat) (hu : Att s u) :
+    (s.obj u).cid = Hc (cidPre s (s.obj u)) := h.cid u hu (fun x => x)
+
+/-- exceptions can only be added -/
+theorem InvX.weaken {Hc : Str → Str} {X X' : Nat → (Nat × Str × Option Nat) → Prop} {Y Y' : Nat → Prop} {s : LState}
+    (h : InvX Hc X Y s) (hX : ∀ u e, X u e → X' u e) (hY : ∀ u, Y u → Y' u) : InvX Hc X' Y' s :=
+  ⟨h.regSound, fun u hu e he hx => h.down u hu e he (fun x => hx (hX u e x)), h.up,
+   fun u hu hy => h.cid u hu (fun y => hy (hY u y)), h.noDangling, h.closed, h.noSelf, h.wf⟩
 
 /-- the initial state: no object, empty registry -/
 def init : LState := {}
 
-theorem att_lt {Hc : Str → Str} {s : LState} (h : Inv Hc s) {u : Nat} (hu : Att s u) : u < s.size :=
+theorem att_lt {Hc : Str → Str} {X : Nat → (Nat × Str × Option Nat) → Prop} {Y : Nat → Prop} {s : LState}
+    (h : InvX Hc X Y s) {u : Nat} (hu : Att s u) : u < s.size :=
   (h.regSound _ _ hu).1
 
 /-- two attached nodes with the same id are the same node -/
@@ -208,6 +243,15 @@ theorem cidPre_congr {s s' : LState} {o o' : LObj} (hc : o'.cls = o.cls) (hp : o
   have : e.1 ∈ o.kidList := (mem_kidList_iff _ _).mpr ⟨e, he', rfl⟩
   simp only [hk _ this]
 
+theorem nodup_of_nodup_map {α β : Type} (f : α → β) : ∀ (l : List α), (l.map f).Nodup → l.Nodup := by
+  intro l
+  induction l with
+  | nil => intro _; exact List.nodup_nil
+  | cons a r ih =>
+    intro h
+    simp only [List.map_cons, List.nodup_cons] at h
+    exact List.nodup_cons.mpr ⟨fun hm => h.1 (List.mem_map.mpr ⟨a, hm, rfl⟩), ih h.2⟩
+
 theorem eq_of_nodup_map {α β : Type} (f : α → β) : ∀ (l : List α), (l.map f).Nodup →
     ∀ a ∈ l, ∀ b ∈ l, f a = f b → a = b := by
   intro l
@@ -225,6 +269,41 @@ theorem eq_of_nodup_map {α β : Type} (f : α → β) : ∀ (l : List α), (l.m
       · subst hb'
         exact absurd (List.mem_map.mpr ⟨a, ha', hab⟩) hnd.1
       · exact ih hnd.2 a ha' b hb' hab
+
+end PyOak.Legacy
+
+namespace PyOak.Legacy
+
+theorem insertBy_map {α β : Type} (g : α → β) (lt : β → β → Bool) (x : α) (l : List α) :
+    insertBy lt (g x) (l.map g) = (insertBy (fun a b => lt (g a) (g b)) x l).map g := by
+  induction l with
+  | nil => rfl
+  | cons y r ih =>
+    simp only [List.map_cons, insertBy]
+    split
+    · simp [ih]
+    · simp
+
+theorem sortBy_map {α β : Type} (g : α → β) (lt : β → β → Bool) (l : List α) :
+    sortBy lt (l.map g) = (sortBy (fun a b => lt (g a) (g b)) l).map g := by
+  induction l with
+  | nil => rfl
+  | cons y r ih => simp only [List.map_cons, sortBy, ih, insertBy_map]
+
+/-- what construction / attachment never does to existing objects: ids and child fields stay, and
+no registry entry is lost -/
+structure Grows (s s' : LState) : Prop where
+  size : s.size ≤ s'.size
+  same : ∀ x, x < s.size → s'.idOf x = s.idOf x ∧ (s'.obj x).fields = (s.obj x).fields
+  reg : ∀ k v, s.lookup k = some v → s'.lookup k = some v
+
+theorem Grows.refl (s : LState) : Grows s s := ⟨Nat.le_refl _, fun _ _ => ⟨rfl, rfl⟩, fun _ _ h => h⟩
+
+theorem Grows.trans {a b c : LState} (h1 : Grows a b) (h2 : Grows b c) : Grows a c :=
+  ⟨Nat.le_trans h1.size h2.size,
+   fun x hx => ⟨((h2.same x (Nat.lt_of_lt_of_le hx h1.size)).1).trans (h1.same x hx).1,
+                ((h2.same x (Nat.lt_of_lt_of_le hx h1.size)).2).trans (h1.same x hx).2⟩,
+   fun k v h => h2.reg k v (h1.reg k v h)⟩
 
 end PyOak.Legacy
 
